@@ -2,6 +2,7 @@ import Drv.Util
 import Drv.C06
 import Drv.C15
 import Drv.C16
+import Drv.C17
 import Drv.C20
 open DrvUtil
 
@@ -17,6 +18,8 @@ def main (args : List String) : IO UInt32 := do
   | ["c20stream4"] => foldLines i o none drvC20stream4; return 0
   | ["c20pipe"] => foldLines i o none drvC20pipe; return 0
   | ["c20a5"] => mapLines i o drvC20a5; return 0
+  | ["c17mr"] => mapLines i o drvC17mr; return 0
+  | ["c17dec"] => mapLines i o drvC17dec; return 0
   | ["c16"] => mapLines i o drvC16; return 0
   | ["c15pos"] => mapLines i o drvC15pos; return 0
   | ["c15enc"] => mapLines i o drvC15enc; return 0
